@@ -727,11 +727,17 @@ func refreshRing(r *ringDescriber) error {
 	}
 
 	prevHosts := r.session.ring.currentHosts()
+	seen := make(map[string]struct{}, len(hosts))
 
 	for _, h := range hosts {
 		if r.session.cfg.filterHost(h) {
 			continue
 		}
+		if _, ok := seen[h.HostID()]; ok {
+			// the same host reported twice, the first row has been handled
+			continue
+		}
+		seen[h.HostID()] = struct{}{}
 
 		if host, ok := r.session.ring.addHostIfMissing(h); !ok {
 			r.session.startPoolFill(h)
